@@ -29,8 +29,8 @@ CHECKS = {
     "C06": dict(cat="model_checking", tech="digest equality across TLC-validated call histories + design invariant InitMakesFresh",
                 text="For every history over {init, init(v1), init(v2), compute(a|b|bad rule), init(0), new object} up to length 3 (sampled in quick, exhaustive for three classes in thorough) the digest of all public results and counters of 'init(v); compute(args)' equals that of a fresh object; the operator is probed before and after every run (shift still in force). The design model proves init() restores the post-init state after every history with faults.",
                 ref="6 C06"),
-    "C07": dict(cat="model_checking", tech="TLC trace validation of per-step Krylov measurements (A V = V H + f e', V'BV = I, V'Bf = 0, shape, advertised k) against Krylov actions of the spec",
-                text="At FacInit, every FacStep, FacDone, CompressV of every recorded solver run the harness measures the three identities in long double with its own copy of the operator; the trace spec tracks k through compress_H/compress_V and judges the measurements (bound grows with the number of restarts), the Hessenberg/tridiagonal shape and the advertised dimension.",
+    "C07": dict(cat="model_checking", tech="TLC-generated call sequences of spec/Krylov.tla (all behaviours up to a length bound, TLC -dump) executed on the real Arnoldi/Lanczos classes and validated by TLC against the same actions (spec -> code -> spec), plus TLC trace validation of per-step Krylov measurements (A V = V H + f e', V'BV = I, V'Bf = 0, shape, advertised k) of recorded solver runs",
+                text="TLC enumerates every sequence of public calls of the factorization object (init, rejected init, partial/full factorize_from, empty and rejected factorize_from, compress_H with single and double shifts, compress_V) up to a length bound; harness/drv_krylov.cpp executes each on real/complex/B-inner-product Arnoldi and Lanczos objects with exact, interior and exterior shifts; spec/TraceKrylov.tla replays the record through the same guards/updates, checks subspace_dim, exceptions, unchanged state on rejected calls, operator counts, hook events, the Krylov identities after every hand-over and the similarity/shape relations while shifts are pending. In addition, at FacInit, every FacStep, FacDone, CompressV of every recorded solver run the harness measures the three identities in long double with its own copy of the operator; the trace spec tracks k through compress_H/compress_V and judges the measurements (bound grows with the number of restarts), the Hessenberg/tridiagonal shape and the advertised dimension.",
                 ref="6 C07"),
     "C08": dict(cat="model_checking", tech="TLC judges measured QR identities and exact structural facts of UpperHessenbergQR/TridiagQR/DoubleShiftQR runs against QRKernels.tla",
                 text="Per-kernel numerical statement: the specification decides exactly the logic_error protocol, the exact zero structure of R and Q'HQ and bit-exact identities on generalized-permutation inputs (trivial rotations); orthogonality, QR = H - sI, similarity, the six apply methods and the double-shift first-column condition are measured in long double on 12 families x 3 shift kinds x 3 scalar types and judged by the spec's c n eps (||H|| + |s|) formulas (sampling of inputs, not proof).",
